@@ -4,6 +4,7 @@
 -/
 import TE.Driver.Fam
 import TE.Model.Count
+import TE.Model.Fams
 namespace TE.Driver
 open TE TE.Count
 
@@ -55,8 +56,7 @@ def famBinaryAccuracy (cfg : Args) : Except String Fam := do
     stat := fun a => do
       let (i, t) ← io a
       if !binaryShapeOk i t then throw .value
-      let (c, n) := binaryAccuracyUpdate thr i.data t.data
-      pure [[c], [n]]
+      Fams.binaryAccuracyStat thr (i.data, t.data)
     outA := fun p => scalarOut (xdiv (part0 p 0) (part0 p 1)) }
 
 def famMulticlassAccuracy (cfg : Args) : Except String Fam := do
@@ -72,14 +72,12 @@ def famMulticlassAccuracy (cfg : Args) : Except String Fam := do
       if k > 1 && i.ndim != 2 then throw .value
       if !(i.ndim == 1 || (i.ndim == 2 && (nc.isNone || i.shape[1]? == nc))) then throw .value
       let labs ← liftP (natLabels t.data)
-      let mask ← (if k == 1 then do
-          let p ← liftP (mcPreds i)
-          pure (mcMaskLabel p labs)
-        else pure (mcMaskTopk i.rows labs k))
-      -- torch.gather raises for a label outside the logit row
-      if k > 1 && !(labs.all (· < (i.shape[1]?.getD 0))) then throw .runtime
-      let (c, n) ← mcAccFromMask mask labs avg C
-      pure [c, n]
+      -- typed family (TE/Model/Fams.lean): `k = 1` on predictions, `k > 1` on the logit rows
+      -- (torch.gather raises for a label outside the logit row)
+      if k == 1 then do
+        let p ← liftP (mcPreds i)
+        Fams.mcAccuracyStat avg C (p, labs)
+      else Fams.mcAccuracyTopkStat avg C k (i.shape[1]?.getD 0) (i.rows, labs)
     outA := fun p =>
       if !paramOk then .error .value else
       let w := if avg == .micro then 1 else C
@@ -93,8 +91,7 @@ def famMultilabelAccuracy (cfg : Args) : Except String Fam := do
     stat := fun a => do
       let (i, t) ← io a
       if i.shape != t.shape || i.ndim != 2 then throw .value
-      let (c, n) := multilabelAccuracyUpdate thr crit i.rows t.rows
-      pure [[c], [n]]
+      Fams.multilabelAccuracyStat thr crit (i.rows, t.rows)
     outA := fun p => scalarOut (xdiv (part0 p 0) (part0 p 1)) }
 
 def famTopkMultilabelAccuracy (cfg : Args) : Except String Fam := do
@@ -105,8 +102,7 @@ def famTopkMultilabelAccuracy (cfg : Args) : Except String Fam := do
       let (i, t) ← io a
       if i.shape != t.shape || i.ndim != 2 then throw .value
       if k > i.shape[1]?.getD 0 then throw .runtime
-      let (c, n) := topkMultilabelUpdate crit k i.rows t.rows
-      pure [[c], [n]]
+      Fams.topkMultilabelStat crit k (i.rows, t.rows)
     outA := fun p => if k ≤ 1 then .error .value else scalarOut (xdiv (part0 p 0) (part0 p 1)) }
 
 /- ---------- precision / recall / F1 ---------- -/
@@ -117,8 +113,7 @@ def famBinaryPrecision (cfg : Args) : Except String Fam := do
     stat := fun a => do
       let (i, t) ← io a
       if !binaryShapeOk i t then throw .value
-      let (tp, fp) := binaryPrecisionUpdate thr i.data t.data
-      pure [[tp], [fp]]
+      Fams.binaryPrecisionStat thr (i.data, t.data)
     outA := fun p => scalarOut (.val (divNan0 (part0 p 0) (part0 p 0 + part0 p 1))) }
 
 def famBinaryRecall (cfg : Args) : Except String Fam := do
@@ -128,8 +123,7 @@ def famBinaryRecall (cfg : Args) : Except String Fam := do
       let (i, t) ← io a
       if !binaryShapeOk i t then throw .value
       let ys ← liftP (natLabels t.data)
-      let (tp, n) := binaryRecallUpdate thr i.data ys
-      pure [[tp], [n]]
+      Fams.binaryRecallStat thr (i.data, ys)
     outA := fun p => scalarOut (.val (divNan0 (part0 p 0) (part0 p 1))) }
 
 def famBinaryF1 (cfg : Args) : Except String Fam := do
@@ -138,8 +132,7 @@ def famBinaryF1 (cfg : Args) : Except String Fam := do
     stat := fun a => do
       let (i, t) ← io a
       if !(i.ndim == 1 && t.ndim == 1 && i.shape == t.shape) then throw .value
-      let (tp, lab, prd) := binaryF1Update thr i.data t.data
-      pure [[tp], [lab], [prd]]
+      Fams.binaryF1Stat thr (i.data, t.data)
     outA := fun p => scalarOut (.val (f1One (part0 p 0) (part0 p 1) (part0 p 2))) }
 
 inductive PRFKind where | precision | recall | f1
@@ -167,8 +160,9 @@ def famMulticlassPRF (kind : PRFKind) (cfg : Args) : Except String Fam := do
       if !mcShapeOk i t nc then throw .value
       let labs ← liftP (natLabels t.data)
       let p ← liftP (mcPreds i)
-      let s ← prfUpdate kind p labs avg C
-      pure [s.tp, s.a, s.b]
+      match kind with
+      | .precision => Fams.mcPrecisionStat avg C (p, labs)
+      | _ => Fams.mcRecallStat avg C (p, labs)
     outA := fun p =>
       if !paramOk then .error .value else
       let w := if avg == .micro then 1 else C
@@ -188,8 +182,7 @@ def famBinaryConfusion (cfg : Args) : Except String Fam := do
       let (i, t) ← io a
       if !(i.ndim == 1 && t.ndim == 1 && i.shape == t.shape) then throw .value
       let labs ← liftP (natLabels t.data)
-      let m ← confusionUpdate (i.data.map (thresh thr)) labs 2
-      pure [m.flatten]
+      Fams.binaryConfusionStat thr (i.data, labs)
     outA := fun p => .ok (showMatX (confusionCompute (matOfPart (part p 0 4) 2) 2 norm) 2) }
 
 def famMulticlassConfusion (cfg : Args) : Except String Fam := do
@@ -204,11 +197,8 @@ def famMulticlassConfusion (cfg : Args) : Except String Fam := do
       if !(i.ndim == 1 || (i.ndim == 2 && i.shape[1]? == some nc)) then throw .value
       let labs ← liftP (natLabels t.data)
       let p ← liftP (mcPreds i)
-      -- value checks of `_confusion_matrix_update_input_check` (upper bound only)
-      if i.ndim == 1 && !(p.all (· < nc)) then throw .value
-      if !(labs.all (· < nc)) then throw .value
-      let m ← confusionUpdate p labs nc
-      pure [m.flatten]
+      -- value checks of `_confusion_matrix_update_input_check` (upper bound only), then `_update`
+      Fams.confusionStat nc (i.ndim == 1) true (p, labs)
     outA := fun p =>
       if nc < 2 then .error .value else
       .ok (showMatX (confusionCompute (matOfPart (part p 0 (nc * nc)) nc) nc norm) nc) }
